@@ -208,6 +208,7 @@ structure State where
   mem  : Option Mem.Mem := none
   dc   : Option DC := none
   sim  : Option (Bool × Pipe.PSt) := none       -- (five-stage?, state)
+  simStarted : Bool := false                    -- `RiscvSimulation.has_started` (`Model.Sim.RSim.started`)
   toy  : Toy.TSim := {}
 
 def parseInstr (tok : String) : Option Rv.Instr :=
@@ -255,6 +256,10 @@ def simFaultStr (f : Int × Option Rv.Instr × Rv.Fault) : String :=
 def simStep (five : Bool) (p : Pipe.PSt) : Pipe.PSt × Option String :=
   let r := Sim.step { five := five, p := p }
   (r.sim.p, r.fault.map simFaultStr)
+
+/-- `has_started` after `step()` (as `Model.Sim.step` sets it) -/
+def simStartedAfter (five : Bool) (p : Pipe.PSt) (started : Bool) : Bool :=
+  (Sim.step { five := five, p := p, started := started }).sim.started
 
 def simDone (five : Bool) (p : Pipe.PSt) : Bool := if five then Pipe.isDone p else Rv.singleDone p.st
 
@@ -380,7 +385,7 @@ def process (st : State) (line : String) : State × String :=
   | ["sim.new", mode, hz, dspec, ispec] =>
     match newMemSys dspec, newICache ispec with
     | some ms, some ic =>
-      ({ st with sim := some (mode = "five", Pipe.PSt.init (freshSt ms ic) (hz = "1")) }, "ok")
+      ({ st with sim := some (mode = "five", Pipe.PSt.init (freshSt ms ic) (hz = "1")), simStarted := false }, "ok")
     | _, _ => (st, "bad-op")
   | "sim.prog" :: toks =>
     match st.sim with
@@ -412,7 +417,7 @@ def process (st : State) (line : String) : State × String :=
     match st.sim with
     | some (five, p) =>
       let (p', f) := simStep five p
-      ({ st with sim := some (five, p') }, match f with | none => s!"ok {boolStr (!simDone five p')}" | some s => s)
+      ({ st with sim := some (five, p'), simStarted := simStartedAfter five p st.simStarted }, match f with | none => s!"ok {boolStr (!simDone five p')}" | some s => s)
     | none => (st, "bad-op")
   | ["sim.split"] =>
     match st.sim with
@@ -427,8 +432,10 @@ def process (st : State) (line : String) : State × String :=
     match st.sim, n.toNat? with
     | some (five, p), some fuel =>
       let (p', k, f) := simRun five fuel p 0
-      ({ st with sim := some (five, p') }, match f with | none => s!"ran {k} {boolStr (simDone five p')}" | some s => s!"ran {k} {s}")
+      -- `run()` calls `step()` at least once unless the simulation is done (or no fuel is given)
+      ({ st with sim := some (five, p'), simStarted := if fuel = 0 then st.simStarted else simStartedAfter five p st.simStarted }, match f with | none => s!"ran {k} {boolStr (simDone five p')}" | some s => s!"ran {k} {s}")
     | _, _ => (st, "bad-op")
+  | ["sim.started"] => (st, boolStr st.simStarted)
   | ["sim.done"] =>
     match st.sim with
     | some (five, p) => (st, boolStr (simDone five p))
